@@ -454,15 +454,17 @@ def _coq_makefile():
 
 
 def _prop_deps(prop_files):
-    """The .vo files the Props files import (from BV Require Import lines)."""
+    """The .vo files the Props files import (From BV Require Import lines, possibly multi-line)."""
     deps = []
+    pat = re.compile(r"From\s+BV\s+Require\s+(?:Import|Export)\s+((?:[A-Za-z_][\w']*(?:\.[A-Za-z_][\w']*)*\s*)+)\.(?=\s|$)")
     for pf in prop_files:
-        txt = open(os.path.join(COQ, pf)).read()
-        for m in re.finditer(r'From\s+BV\s+Require\s+(?:Import|Export)\s+([^.]*(?:\.[A-Za-z_][^.\s]*)*)\.', txt):
-            pass
-        for line in re.findall(r'From\s+BV\s+Require\s+(?:Import|Export)\s+(.*?)\.\s*$', txt, flags=re.M):
-            for mod in line.split():
+        txt = _strip_comments(open(os.path.join(COQ, pf)).read())
+        for m in pat.finditer(txt):
+            for mod in m.group(1).split():
                 deps.append(mod.replace('.', '/') + '.vo')
+    if not deps:
+        # never fall back to `make all`: build just the Props files (make resolves their dependencies)
+        deps = [pf[:-2] + '.vo' for pf in prop_files]
     return sorted(set(deps))
 
 
